@@ -127,7 +127,11 @@ def seeded(update_meta=True):
         pf = os.path.join(bd, name, "patch.diff")
         if not os.path.exists(pf):
             continue
-        for pid in BENIGN_PROPS.get(name, []):
+        props = BENIGN_PROPS.get(name, [])
+        pt = os.path.join(bd, name, "props.txt")
+        if not props and os.path.exists(pt):
+            props = open(pt).read().split()
+        for pid in props:
             r = subprocess.run([sys.executable, os.path.join(ROOT, "tools", "mutcheck.py"), pid, "--patch", pf], capture_output=True, text=True)
             ex = [l for l in r.stdout.splitlines() if l.startswith("exit ")][-1:]
             alarm = "VIOLATION property=" in r.stdout
